@@ -309,6 +309,10 @@ class Agent(dbus.service.Object):
             except Exception as err:
                 self._logger.error('Step %5.1f failed with exception: %s', step.order, err)
                 self._logger.debug('%s', traceback.format_exc())
+                # the routing decision was not carried out
+                ctr.actions.pop('deliver', None)
+                ctr.actions.pop('forward', None)
+                ctr.record_action('delete')
                 break
 
         if 'delete' in ctr.actions:
